@@ -27,9 +27,9 @@ const (
 )
 
 type xattr struct {
-	name string // as written: "w:val", "xmlns:w"
-	val  value  // string or sym(string)
-	pre   bool  // harness-supplied: space/local already resolved
+	name  string // as written: "w:val", "xmlns:w"
+	val   value  // string or sym(string)
+	pre   bool   // harness-supplied: space/local already resolved
 	space value
 	local value
 }
@@ -91,13 +91,13 @@ func parseXMLTag(st *types.Struct, i int) fieldTag {
 }
 
 type xmlModeler struct {
-	fr     *frame
-	out    []xtok
-	indent bool
-	depth  int
-	raw    bool
+	fr      *frame
+	out     []xtok
+	indent  bool
+	depth   int
+	raw     bool
 	started bool
-	kids   []bool
+	kids    []bool
 }
 
 func (m *xmlModeler) x() *exec { return m.fr.i.x }
